@@ -1,7 +1,7 @@
 (* Corr.v — comparison of model outputs with the implementation's observables,
    evaluated by vm_compute from generated case files (definitions only). *)
 From Coq Require Import ZArith List Bool Lia.
-From Dendro Require Import Base Tree Grid Criteria Compute Index Prune PruneGhost Newick IO DEq.
+From Dendro Require Import Base Tree Grid Criteria Compute Index Prune PruneGhost Newick IO DEq Cache.
 Import ListNotations.
 Open Scope Z_scope.
 
@@ -98,3 +98,25 @@ Definition choose_ok (c : choose_case) : bool :=
 (* ---- equality (C20): (a, other, observed result of a == other) *)
 Definition deq_case : Type := DEq.dview * option DEq.dview * bool.
 Definition deq_ok (c : deq_case) : bool := let '(a, o, r) := c in Bool.eqb (DEq.deq a o) r.
+
+(* ---- caches (C14): (initial forest, operations, expected observations; a forest is
+        observed through its structure view) *)
+Inductive eobs : Type := EZ (z : Z) | EL (l : list Z) | EP (p : (Z * Z) * (Z * Z)) | EF (s : sview_t).
+Definition eobs_ok (o : Cache.obs) (e : eobs) : bool :=
+  match o, e with
+  | Cache.OZ a, EZ b => a =? b
+  | Cache.OL a, EL b => zl_eqb a b
+  | Cache.OP a, EP b => pair_eqb zz_eqb zz_eqb a b
+  | Cache.OForest f, EF s => sview_eqb (sview f) s
+  | _, _ => false
+  end.
+Fixpoint eobs_all (os : list Cache.obs) (es : list eobs) : bool :=
+  match os, es with
+  | [], [] => true
+  | o :: r, e :: r' => eobs_ok o e && eobs_all r r'
+  | _, _ => false
+  end.
+Definition cache_case : Type := list tree * list Cache.op * list eobs.
+Definition cache_ok (c : cache_case) : bool :=
+  let '(f, ops, es) := c in
+  eobs_all (Cache.run_ops false {| Cache.st_forest := f; Cache.st_store := [] |} ops) es.
